@@ -66,6 +66,8 @@ Step ==
               /\ UNCHANGED <<nexcl, ncerr>>
               /\ (Lemma /\ "base" \in DOMAIN c /\ ExpectedRows(c.ast, c.ng) # exp
                     => Emit("LEMMAFAIL", [id |-> c.id, pat |-> c.pat]))
+              /\ (("toks" \in DOMAIN c /\ c.sametree /\ c.tree # c.tree0)
+                    => Emit("TREEDIFF", [id |-> c.id, pat |-> c.pat, style |-> c.style]))
               /\ IF exp = log
                  THEN nok' = nok + 1 /\ UNCHANGED nrej
                  ELSE /\ nrej' = nrej + 1 /\ UNCHANGED nok
